@@ -384,3 +384,99 @@ def _mark_levels(body, t):
             return [blk, ('i32.const', 100 + lev), ('call', 0), ('drop',)]
         return b
     return rec(body, 0)
+
+
+# ====================================================================== C04 calls
+def _mix(types, base=0):
+    """instructions folding locals base.. of the given types into one i64, asymmetrically (order-sensitive)"""
+    out = [('i64.const', 0x9E3779B97F4A7C15)]
+    for i, t in enumerate(types):
+        out += [('i64.const', 5), ('i64.rotl',)]
+        out += [('local.get', base + i)]
+        if t == I32:
+            out += [('i64.extend_i32_u',)]
+        elif t == F32:
+            out += [('i32.reinterpret_f32',), ('i64.extend_i32_u',)]
+        elif t == F64:
+            out += [('i64.reinterpret_f64',)]
+        out += [('i64.xor',)]
+    return out
+
+
+def calls_family(seed, quick):
+    """list of (name, module, script, harness_kw)"""
+    rng = random.Random(seed + 99)
+    out = []
+    T = [I32, I64, F32, F64]
+    # --- direct calls: every parameter list shape of 0..4 params from a set where neighbours differ or repeat
+    plists = [[], [I32], [I64, I32], [I32, I32], [F32, F64, I32], [I64, I64, F32], [F64, I32, I32, I64], [I32, I64, F32, F64],
+              [F32, F32, F64, F64]]
+    if not quick:
+        for _ in range(12):
+            plists.append([rng.choice(T) for _ in range(rng.randint(1, 4))])
+    for pi, pl in enumerate(plists):
+        for nimp in (0, 1, 2):
+            for pos in (0, 1, 2):
+                if quick and (pi + nimp + pos) % 3 != 0:
+                    continue
+                imports = [Import('env', 'h%d' % k, 'func', ([I64], [I64]) if k == 0 else ([I32, F64], [])) for k in range(nimp)]
+                # defined functions: fillers + callee at position `pos` among definitions + caller last
+                callee = Func(pl, [I64], [], _mix(pl) + ([('call', 0)] if nimp else []))
+                fillers = [Func([I32], [I32], [], [('local.get', 0), ('i32.const', 17 + k), ('i32.add',)]) for k in range(2)]
+                defs = fillers[:pos] + [callee] + fillers[pos:]
+                callee_idx = nimp + pos
+                # caller takes the same params in reversed order and passes them in declaration order of the callee
+                rpl = list(reversed(pl))
+                n = len(pl)
+                caller_body = [('local.get', n - 1 - i) for i in range(n)] + [('call', callee_idx)]
+                if nimp == 2:
+                    caller_body = [('i32.const', 3), ('f64.const', 0x4000000000000000), ('call', 1)] + caller_body
+                caller = Func(rpl, [I64], [], caller_body)
+                m = Module(imports=imports, funcs=defs + [caller], exports=[('f', 'func', nimp + len(defs))])
+                out.append(('direct_p%d_i%d_at%d' % (pi, nimp, pos), m, [{'call': 'f'}], {'max_host_calls': 4}))
+    # --- recursion and mutual recursion (fuel <= 3)
+    rec = Func([I32, I64], [I64], [], [
+        ('local.get', 0), ('i32.eqz',), ('if', I64, [('local.get', 1)],
+                                           [('local.get', 0), ('i32.const', 1), ('i32.sub',),
+                                            ('local.get', 1), ('i64.const', 3), ('i64.shl',), ('local.get', 0), ('i64.extend_i32_u',), ('i64.add',),
+                                            ('call', 0)])])
+    out.append(('recursion', Module(funcs=[rec], exports=[('f', 'func', 0)]), [{'call': 'f', 'assume': {0: '$ <= 3'}}], {}))
+    ev = Func([I32], [I32], [], [('local.get', 0), ('i32.eqz',), ('if', I32, [('i32.const', 1)], [('local.get', 0), ('i32.const', 1), ('i32.sub',), ('call', 2)])])
+    od = Func([I32], [I32], [], [('local.get', 0), ('i32.eqz',), ('if', I32, [('i32.const', 0)], [('local.get', 0), ('i32.const', 1), ('i32.sub',), ('call', 1)])])
+    hostm = Import('env', 'h0', 'func', ([I64], [I64]))
+    out.append(('mutual_recursion', Module(imports=[hostm], funcs=[ev, od], exports=[('f', 'func', 1), ('g', 'func', 2)]),
+                [{'call': 'f', 'assume': {0: '$ <= 3'}}, {'call': 'g', 'assume': {0: '$ <= 3'}}], {}))
+    # --- exported imported function
+    out.append(('export_import', Module(imports=[hostm], funcs=[Func([], [], [], [('nop',)])], exports=[('hh', 'func', 0)]),
+                [{'call': 'hh'}], {}))
+    # --- call_indirect: defined / imported table, const / global offsets, 1..3 entries, overlapping segments
+    sig_a = ([I32, I64], [I64])
+    sig_b = ([I64], [I64])
+    fa1 = Func([I32, I64], [I64], [], [('local.get', 1), ('local.get', 0), ('i64.extend_i32_u',), ('i64.sub',)])
+    fa2 = Func([I32, I64], [I64], [], [('local.get', 1), ('i64.const', 7), ('i64.rotl',), ('local.get', 0), ('i64.extend_i32_s',), ('i64.xor',)])
+    fb1 = Func([I64], [I64], [], [('local.get', 0), ('i64.const', 1), ('i64.add',)])
+    for tabimp in (False, True):
+        for offkind in ('const', 'global'):
+            for segs in ([[1, 2]], [[1], [3, 2]], [[1, 2, 3], [2]], [[0, 1, 2]]):
+                if quick and (len(segs) + (1 if tabimp else 0) + (1 if offkind == 'global' else 0)) % 2 == 1 and segs != [[1, 2, 3], [2]]:
+                    continue
+                imports = [hostm]   # function index 0 = import (sig_b)
+                if tabimp:
+                    imports.append(Import('env', 'tab', 'table', (6, 8)))
+                if offkind == 'global':
+                    imports.append(Import('env', 'base', 'global', (I32, False)))
+                caller = Func([I32, I32, I64], [I64], [], [('local.get', 1), ('local.get', 2), ('local.get', 0), ('call_indirect', sig_a, 0)])
+                caller_b = Func([I32, I64], [I64], [], [('local.get', 1), ('local.get', 0), ('call_indirect', sig_b, 0)])
+                funcs = [fa1, fa2, fb1, caller, caller_b]     # indices 1,2,3,4,5
+                elems = []
+                for si, fl in enumerate(segs):
+                    off = ('i32.const', si) if offkind == 'const' else ('global.get', 0)
+                    if offkind == 'global' and si > 0:
+                        off = ('i32.const', 2)
+                    elems.append(Elem(off, fl))
+                m = Module(imports=imports, funcs=funcs, tables=[] if tabimp else [(6, 8)], elems=elems,
+                           exports=[('ca', 'func', 4), ('cb', 'func', 5)])
+                script = [{'call': 'ca'}] + ([{'call': 'cb'}] if any(x in (0, 3) for sg in segs for x in sg) else [])
+                nm = 'indirect_%s_%s_%s' % ('imptab' if tabimp else 'deftab', offkind, '_'.join(''.join(str(x) for x in s) for s in segs))
+                out.append((nm, m, script, {'tab_slots': 6, 'max_host_calls': 4}))
+    return out
